@@ -84,3 +84,48 @@ Theorem C17_single_byte_helper_never_out_of_fuel :
   forall table input t only_test is_chunk mb, helper (sb_decoder table) [65533] input t only_test is_chunk mb <> HFuel.
 Proof. exact sb_helper_total. Qed.
 Print Assumptions C17_single_byte_helper_never_out_of_fuel.
+
+From Model Require Import Utf Codecs.
+From Proofs Require Import UtfFacts CodecFacts.
+
+(* ---- the Unicode codecs at the character level (Model/Utf.v) ---- *)
+(* "valid UTF-8" of the window theorem is met by every string: the crate's automaton (generated tables) takes the
+   encoding of every Unicode scalar value from the initial state back to it *)
+Theorem C17_every_scalar_value_encodes_to_a_character :
+  forall c, is_scalar c = true -> is_char (utf8_encode_char c).
+Proof. exact utf8_encode_char_is_char. Qed.
+Print Assumptions C17_every_scalar_value_encodes_to_a_character.
+
+(* the helper decodes the UTF-8 form of any text to exactly that text, strictly and in chunk mode *)
+Theorem C17_utf8_round_trip :
+  forall t, Forall (fun c => is_scalar c = true) t ->
+    utf8_strict_text (utf8_encode t) = Some t /\ utf8_chunk_text (utf8_encode t) = Some t.
+Proof. intros t Ht. split; [exact (utf8_strict_text_encode t Ht) | exact (utf8_chunk_text_encode t Ht)]. Qed.
+Print Assumptions C17_utf8_round_trip.
+
+(* the UTF-16 decoder (the crate's UTF16Decoder with its pending-byte / pending-surrogate state) inverts the
+   UTF-16 encoder, for both byte orders, strictly and in chunk mode *)
+Theorem C17_utf16_round_trip :
+  forall big t, Forall (fun c => is_scalar c = true) t ->
+    utf16_strict_text big (utf16_encode big t) = Some t /\ utf16_chunk_text big (utf16_encode big t) = Some t.
+Proof. intros big t Ht. split; [exact (utf16_strict_text_encode big t Ht) | exact (utf16_chunk_text_encode big t Ht)]. Qed.
+Print Assumptions C17_utf16_round_trip.
+
+(* every modelled codec emits at most one character per byte *)
+Theorem C17_modelled_codecs_one_char_per_byte_at_most :
+  forall k b t, codec_strict k b = Some t -> len t <= len b.
+Proof. exact codec_strict_len. Qed.
+Print Assumptions C17_modelled_codecs_one_char_per_byte_at_most.
+
+(* the closed form used for single-byte codecs is the helper *)
+Theorem C17_single_byte_closed_form_is_the_helper :
+  forall table l,
+    sb_closed table l = (match helper (sb_decoder table) [65533] l Strict false false false with HOk o => Some o | _ => None end)
+    /\ sb_closed table l = (match helper (sb_decoder table) [65533] l Strict false true false with HOk o => Some o | _ => None end)
+    /\ sb_all table l = (match helper (sb_decoder table) [65533] l Strict true false false with HOk _ => true | _ => false end).
+Proof. intros table l. split; [exact (sb_closed_strict table l)|split; [exact (sb_closed_chunk table l) | exact (sb_all_test table l)]]. Qed.
+Print Assumptions C17_single_byte_closed_form_is_the_helper.
+
+Example C17_utf16_example :
+  utf16_strict_text false [255; 254; 65; 0; 61; 216; 0; 222] = Some [65279; 65; 128512].
+Proof. vm_compute. reflexivity. Qed.
